@@ -105,6 +105,29 @@ ROWS = {
                "C10 quick: history_dependent|mono16_one_frame_of_255|after|...", ""),
     "C13b-1": ("C13", "rice.rs sign folding in the cost tables gives 2|x|+1 for negative residuals", "very small, negative-skewed residuals", "C13 quick: not_optimal", ""),
     "C13b-2": ("C13", "rice.rs padding buffer hoisted out of the chunk loop (stale tail chunk)", "a partition whose sample count is not a multiple of 16 and large residuals at the stale offsets", "C13 quick: not_optimal", ""),
+    # ---- round 2, remaining properties
+    "C02b-1": ("C02", "datatype.rs SampleRateSpec::from_freq: Hz code used (truncated to 16 bits) for rates above 65535", "a rate in 65536..=96000 that is not a multiple of 10 (e.g. 65536, 95999)",
+               "C02 quick: malformed|frame.rate_mismatch", ""),
+    "C02b-2": ("C02", "bitrepr.rs Frame::write clears its thread-local frame sink after use instead of before", "a sink fault during a frame write, then another write on the same thread",
+               "C12 quick: accepted_bits_not_prefix|frame", "C02 and C10 quick do not see it (C10's failing-sink calls fail before the first frame)"),
+    "C04b-1": ("C04", "coding.rs / par.rs: the final block-size fix-up is skipped for single-frame streams", "an input shorter than 16 samples", "C04 quick: min_block_size_below_16 / claxon_reject", ""),
+    "C04b-2": ("C04", "same mechanism as C08b-2 (authored independently)", "single-thread mode and a rate stored in tens of Hz",
+               "C04 quick (rates with extra header bytes, added after reading the change): min/max_frame_size; C08 quick", ""),
+    "C11b-1": ("C11", "bitsink.rs default write_twoc narrows the value to 32 bits", "two's-complement fields wider than 32 bits", "C11 quick: write_twoc<i64> panic (overflow checks) for widths 33..=64", ""),
+    "C11b-2": ("C11", "bitsink.rs MemSink<u8>::write_msbs skips the mask for whole-byte field widths", "n a multiple of 8 below the value width, non-zero bits below the field, unaligned sink", "C11 quick: MemSink<u8>|bits|write_msbs", ""),
+    "C12b-1": ("C12", "bitrepr.rs Frame::write: body and CRC writes chained with Result::and (eager): the footer is written after the body was refused", "a sink that refuses one write and accepts a later one",
+               "C12 quick (transient-fault flavour, added after reading the change): accepted_bits_not_prefix|frame|Transient, |BytesOnly", ""),
+    "C12b-2": ("C12", "bitrepr.rs Stream::write: `if let Err(Range)` drops sink errors of the frame section", "a sink fault after the first 42 bytes", "C12 quick: error_swallowed|stream*", ""),
+    "C14b-1": ("C14", "arrayutils.rs new 16-bit fast path reads the odd last sample at the sample index instead of the byte index", "2-byte samples and an odd total value count", "C14 quick: framebuf_differs / stream_differs", ""),
+    "C14b-2": ("C14", "arrayutils.rs new 24-bit fast path folds the sign with > instead of >=", "a 24-bit sample at negative full scale delivered as bytes", "C14 quick: framebuf_differs / encode_fail", ""),
+    "C15b-1": ("C15", "decode.rs LPC reconstruction truncates the prediction to 32 bits before the shift", "loud 24-bit LPC-coded material", "C15 quick: frame_decode_differs / stream_decode_differs", ""),
+    "C15b-2": ("C15", "parser.rs frame(): the channel counter moved out of the per-frame closure", "parser::stream, two or more frames, stereo decorrelation in a later frame", "C15 quick: stream_parse_error", ""),
+    "C16b-1": ("C16", "parser.rs: 0 used as the 'CRC not checked' sentinel", "an altered frame whose own CRC-16 computes to 0 (about 1 in 65536 alterations)", "C16 quick: altered_frame_accepted (25 of 5 million alterations)", ""),
+    "C16b-2": ("C16", "parser.rs residual(): warm-up handling hoisted, partition_len - skip underflows", "a corrupted partition order that makes a partition shorter than the predictor order (panic only with overflow checks)",
+               "C16 quick: panic@src/component/parser.rs attempt to subtract with overflow", "demonstration confirmed in the dev profile (confirm.log)"),
+    "C17b-1": ("C17", "coding.rs encode_fixed_size_frame casts the frame number to u32 before the range check", "frame numbers of 2^32 or more with bit 31 clear", "C17 quick: encode_fixed_size_frame(frame number)|invalid_argument_accepted", ""),
+    "C17b-2": ("C17", "par.rs worker returns its buffer only when the frame encoded successfully", "at least 2*workers blocks with an out-of-width sample",
+               "C06 quick: loom deadlock (scenario ..badsample@0+badsample@1)", "C17 quick probes a single bad block and does not see it; it is C06's failure class"),
 }
 
 DROPPED = {
